@@ -217,6 +217,7 @@ WARM = False
 # ... and for arrays whose data are laid out in Fortran order (what a transpose, or data read from elsewhere, look like): a
 # C-ordered and an F-ordered buffer with equal elements are the same abstract array.  Set per scenario by engine.py.
 FORDER = False
+RELABEL = False     # axes are first built with their labels rotated, looked up once, then relabelled in place (stale caches)
 
 
 def warm(arr):
@@ -237,14 +238,33 @@ def gamma(a, codec=None, kinds=None):
         vals[i] = cell_enc(c, dt)
     vals = vals.reshape(shape)
     axes = []
+    relabel = []
     for name, kind, labs, aat in zip(a["dims"], kinds, a["labs"], a["aattrs"]):
-        ax = Axis(codec.enc_seq(labs, kind), name)
+        final = codec.enc_seq(labs, kind)
+        if RELABEL and len(labs) >= 2 and kind != "n":
+            ax = Axis(np.roll(np.asarray(final), 1), name)
+            relabel.append((ax, final))
+        else:
+            ax = Axis(final, name)
         ax.attrs.update(attrs_enc(aat))
         axes.append(ax)
     if FORDER and vals.ndim >= 2:
         vals = np.asfortranarray(vals)
     arr = DimArray(vals, axes=axes)
     arr.attrs.update(attrs_enc(a["attrs"]))
+    for ax, final in relabel:
+        # a history: every label is looked up once and the order is queried under the old labels, then the axis is
+        # relabelled in place through Axis.__setitem__; whatever the axis remembered must not survive
+        ax.is_monotonic()
+        for v in ax.values.tolist():
+            try:
+                ax.loc(v)
+            except Exception:  # noqa
+                pass
+        dt = ax.values.dtype
+        ax[:] = final
+        if ax.values.dtype != dt or ax.values.tolist() != np.asarray(final).tolist():
+            raise RuntimeError("in-place relabelling did not produce the requested labels: %r vs %r" % (ax.values, final))
     if WARM:
         warm(arr)
     return arr
